@@ -10,12 +10,15 @@
 (*   c.rn, c.fi   Seq: residue name, from_itp block name ("" = none)       *)
 (*   c.E          residue graph: set of 2-element sets of positions        *)
 (*   c.mods       Seq([resid, mod]) of -mods; <<>> = default termini       *)
+(*   c.mark       Seq: a residue-level attribute of the sequence file      *)
+(*                ("" = absent) that MapToMolecule hands down to the atoms *)
+(*                of the residue; a link atom may ask for it (mk)          *)
 (* A force field F = FFs[i] is a SET of definitions presented in one base  *)
 (* order:  F.blocks, F.links, F.mods (sequences = identifiers), F.bib (the *)
 (* citation keys it defines), F.files = Seq([syn, defs]) with              *)
 (* defs = Seq([t |-> "b"|"l"|"m", i |-> index]).                           *)
 (*   block [name, nrexcl, atoms: Seq([an, ty, rn, res]), inters, cite]     *)
-(*   link  [orders: Seq(Int), atoms: Seq([oi, an, rn (set)]), inters,      *)
+(*   link  [orders: Seq(Int), atoms: Seq([oi, an, rn (set), mk]), inters,  *)
 (*          rep: Seq([a, ty]), del: set of link atoms]                     *)
 (*   mod   [name, atoms: Seq([an, rep, ty]), inters: Seq([kind, a, b, par])]*)
 (*   interaction [kind, at: Seq(index), par, ver]                          *)
@@ -188,7 +191,8 @@ OrderOK(c, l, phi) == \A i, j \in 1..NOrd(l) : (IsStar(l.orders[i]) \/ IsStar(l.
 \* link atom -> the one atom of its residue with that name (0 where there is none or more than one)
 ImgVec(c, M, l, phi) == TLCEval([a \in DOMAIN l.atoms |->
                            LET p == phi[l.atoms[a].oi]
-                               S == {g \in M.gattr[p] : M.atoms[g].an = l.atoms[a].an /\ c.rn[p] \in l.atoms[a].rn}
+                               S == {g \in M.gattr[p] : M.atoms[g].an = l.atoms[a].an /\ c.rn[p] \in l.atoms[a].rn
+                                                          /\ (l.atoms[a].mk = "" \/ c.mark[p] = l.atoms[a].mk)}
                            IN IF Cardinality(S) = 1 THEN CHOOSE g \in S : TRUE ELSE 0])
 Prefilter(M, l) == \E g \in DOMAIN M.atoms : M.atoms[g].rn \in LinkRns(l)
 IntImg(l, vs, k, iv) == {[kind |-> l.inters[q].kind, at |-> [j \in DOMAIN l.inters[q].at |-> iv[l.inters[q].at[j]]], par |-> l.inters[q].par, ver |-> vs[q], li |-> k] : q \in DOMAIN l.inters}
